@@ -456,12 +456,24 @@ impl PrefixesApi {
     }
 }
 
+/// Parses an AS number given as (part of) a query parameter value.
+///
+/// `Asn::from_str` inspects the first two bytes of its input to detect an
+/// "AS" prefix, which panics when they are not a character boundary. A value
+/// that is not plain ASCII cannot be an AS number, so refuse it up front.
+fn parse_asn(s: &str) -> Result<Asn, String> {
+    if !s.is_ascii() {
+        return Err("invalid AS number".to_string());
+    }
+    Asn::from_str(s).map_err(|err| err.to_string())
+}
+
 fn extract_filter_kind(filter: MatchedParam) -> Result<FilterKind, String> {
     let extracted_filter = match filter {
         MatchedParam::Family("as_path", v) => {
             let mut asns = Vec::new();
             for asn_str in v.split(',') {
-                let asn = Asn::from_str(asn_str).map_err(|err| {
+                let asn = parse_asn(asn_str).map_err(|err| {
                     format!(
                         "Invalid ASN value '{}' in 'as_path' filter: {}",
                         asn_str, err
@@ -472,7 +484,7 @@ fn extract_filter_kind(filter: MatchedParam) -> Result<FilterKind, String> {
             Ok(FilterKind::AsPath(asns))
         }
 
-        MatchedParam::Family("peer_as", v) => match Asn::from_str(v) {
+        MatchedParam::Family("peer_as", v) => match parse_asn(v) {
             Ok(asn) => Ok(FilterKind::PeerAs(asn)),
             Err(err) => Err(format!(
                 "Invalid value '{}' for 'peer_as' filter: {}",
